@@ -114,6 +114,7 @@ func c01GenPreIdx0(rt *rapid.T, total int) uint32 {
 func c01Prop(rt *rapid.T, rec *ev.Recorder, maxDeps int) {
 	nBlocks := rapid.IntRange(1, 12).Draw(rt, "nBlocks")
 	var blocks []c01Block
+	var allDeps []bridgesync.Bridge
 	num := uint64(1)
 	total := 0
 	for i := 0; i < nBlocks; i++ {
@@ -125,7 +126,8 @@ func c01Prop(rt *rapid.T, rec *ev.Recorder, maxDeps int) {
 		}
 		pos := uint64(0)
 		for j := 0; j < n; j++ {
-			d := genBridge(rt)
+			d := genBridgeOrRepeat(rt, allDeps)
+			allDeps = append(allDeps, d)
 			d.BlockNum, d.BlockPos = num, pos
 			d.BlockTimestamp = num * 12
 			pos += uint64(rapid.IntRange(1, 3).Draw(rt, "posGap"))
